@@ -2,6 +2,7 @@ package prc
 
 import (
 	"github.com/kercylan98/minotaur/toolkit/log"
+	"github.com/kercylan98/minotaur/toolkit/verifhook"
 	"github.com/puzpuzpuz/xsync/v3"
 )
 
@@ -42,6 +43,7 @@ func (rc *ResourceController) GetPhysicalAddress() PhysicalAddress {
 
 // Register 向资源控制器注册一个进程，如果进程已存在，将会返回已有的 ProcessId 和一个标识是否已存在的状态信息，这对于进程的重复注册检测是非常有用的
 func (rc *ResourceController) Register(id *ProcessId, process Process) (pid *ProcessId, exist bool) {
+	verifhook.At("rc.reg.los")
 	process, exist = rc.processes.LoadOrStore(id.GetLogicalAddress(), process)
 	if !exist {
 		process.Initialize(rc, id)
@@ -52,10 +54,12 @@ func (rc *ResourceController) Register(id *ProcessId, process Process) (pid *Pro
 
 // Unregister 从资源控制器注销一个进程
 func (rc *ResourceController) Unregister(killer *ProcessId, target *ProcessId) {
+	verifhook.At("rc.unreg.lad")
 	process, exist := rc.processes.LoadAndDelete(target.GetLogicalAddress())
 	if !exist {
 		return
 	}
+	verifhook.At("rc.unreg.term")
 	process.Terminate(killer)
 	//rc.logger().Debug("ResourceController", log.String("unregister", target.URL().String()))
 }
@@ -70,13 +74,16 @@ func (rc *ResourceController) GetProcess(id *ProcessId) (process Process) {
 	if id == nil {
 		return rc.config.notFoundSubstitute
 	}
+	verifhook.At("rc.get.cload")
 	processPtr := id.cache.Load()
 	if processPtr != nil {
 		process = *processPtr
+		verifhook.At("rc.get.isterm")
 		if !process.IsTerminated() {
 			return process
 		}
 
+		verifhook.At("rc.get.cclear")
 		id.cache.Store(nil)
 	}
 
@@ -84,6 +91,7 @@ func (rc *ResourceController) GetProcess(id *ProcessId) (process Process) {
 		// 远程进程加载
 		for _, resolver := range rc.par {
 			if process = resolver.Resolve(id); process != nil {
+				verifhook.At("rc.get.rstore")
 				id.cache.Store(&process)
 				return
 			}
@@ -93,8 +101,10 @@ func (rc *ResourceController) GetProcess(id *ProcessId) (process Process) {
 
 	// 本地进程加载
 	var exist bool
+	verifhook.At("rc.get.mload")
 	process, exist = rc.processes.Load(id.GetLogicalAddress())
 	if exist {
+		verifhook.At("rc.get.cstore")
 		id.cache.Store(&process)
 		return process
 	} else {
